@@ -86,7 +86,7 @@ def write_replay(pid, result, v, note=""):
                 chart_line = json.loads(line)
                 break
     header = None
-    eng = v["exec"] if v["exec"] in ("large", "fast") else "large"
+    eng = v["exec"] if v["exec"] in ("large", "fast", "genc", "pml") else "large"
     for fn in sorted(os.listdir(wd)):
         if fn.startswith("s") and fn.endswith(".%s.ndjson" % eng):
             with open(os.path.join(wd, fn)) as f:
@@ -98,7 +98,7 @@ def write_replay(pid, result, v, note=""):
             break
     rp = os.path.join(OUT, "replay", "%s-case%d-%s.json" % (pid, v["case"], v["exec"]))
     with open(rp, "w") as f:
-        json.dump({"property": pid, "kind": "interp", "note": note, "case": header, "chart": chart_line,
+        json.dump({"property": pid, "kind": eng if eng in ("genc", "pml") else "interp", "note": note, "case": header, "chart": chart_line,
                    "verdict": v}, f, indent=1)
     return rp
 
